@@ -114,14 +114,15 @@ fn one_case(t: i32, i: usize, ctx: &Ctx, rep: &mut Report, dir: &str) {
     }
     let mut r = Rng::derive(ctx.seed, &[tag("c01"), t as u64, i as u64]);
     let dens = [0.0, 0.2, 1.0, 0.0, 0.5][i % 5];
-    let big = ctx.thorough && i % 997 == 5;
+    let big = ctx.thorough && i % 997 == 5 && !cfg!(miri);
     let c = Cfg {
         pool: if i % 5 == 3 { Pool::Exact } else { Pool::Mixed },
         dens,
         allow_inf: true,
         nan_zm: true,
-        max_parts: if big { 30 } else { ctx.pick(4, 12) },
-        max_len: if big { 400 } else { ctx.pick(5, 40) },
+        // Miri interprets ~10^4 times slower: small shapes there
+        max_parts: if cfg!(miri) { 3 } else if big { 30 } else { ctx.pick(4, 12) },
+        max_len: if cfg!(miri) { 4 } else if big { 400 } else { ctx.pick(5, 40) },
     };
     let max_n = if cfg!(miri) { 3 } else { ctx.pick(5, 40) };
     let mut shapes = gen::sequence(t, &mut r, &c, 1, if big { 3 } else { max_n }, i as u64);
@@ -244,6 +245,17 @@ fn one_case(t: i32, i: usize, ctx: &Ctx, rep: &mut Report, dir: &str) {
                         let prev = role_obs.insert((k, ri), g.kinds[ri]);
                         if prev.is_none() {
                             rep.count("ring_role_changes_observed", 1);
+                            // cheap in-process pre-adjudication with the harness's own exact
+                            // integer arithmetic; everything it cannot settle goes offline
+                            let ring = &w.parts[ri];
+                            if ring.iter().any(|v| !f64::from_bits(v[0]).is_finite() || !f64::from_bits(v[1]).is_finite()) {
+                                rep.count("role_changes_without_claim(non-finite coordinate)", 1);
+                                continue;
+                            }
+                            if crate::dump::exact_area2_dyadic(ring) == Some(0) {
+                                rep.count("role_changes_allowed(exact area 0, settled in-process)", 1);
+                                continue;
+                            }
                             rep.pend(J::obj(vec![
                                 ("kind", J::s("role")),
                                 ("case", J::s(case.clone())),
@@ -293,7 +305,7 @@ fn one_case(t: i32, i: usize, ctx: &Ctx, rep: &mut Report, dir: &str) {
 }
 
 pub fn run(ctx: &Ctx) -> Report {
-    let n = if cfg!(miri) { ctx.opt_u64("n", 4) as usize } else { ctx.pick(150, 5000) };
+    let n = if cfg!(miri) { ctx.opt_u64("n", 4) as usize } else { ctx.pick(600, 8000) };
     let dir = format!("{}/files", ctx.out);
     if !cfg!(miri) {
         std::fs::create_dir_all(&dir).expect("harness: mkdir");
